@@ -41,6 +41,11 @@ MineTo(s, w, txs) ==
   LET bc == BuildCoinbase(s, w, [fees |-> FeesOf(s, txs), h |-> Height(s) + 1, key |-> ""])
   IN MineBlock(LastOf(bc.steps), OID(s, w, bc.key), txs)
 MineForeign(s, txs) == MineBlock(s, "", txs)
+\* the node re-requests the coinbase under the key of a candidate it was given before (a block of ours
+\* that lost the race): build_coinbase(key_id = Some(k)) for the NEW height, then the block
+MineToKey(s, w, txs, k) ==
+  LET bc == BuildCoinbase(s, w, [fees |-> FeesOf(s, txs), h |-> Height(s) + 1, key |-> k])
+  IN MineBlock(LastOf(bc.steps), OID(s, w, bc.key), txs)
 
 \* Refresh as the harness performs it between protocol steps: Refresh1 on the
 \* active account followed by kernel confirmation of outstanding entries.
@@ -254,6 +259,20 @@ MineAct(to) ==
   /\ LET txs == PickValid(st, st.pool, {}) IN
      Upd(IF to = "" THEN MineForeign(st, txs) ELSE MineTo(st, to, txs), hv, net,
          [ev |-> "mine", to |-> to, txs |-> txs])
+\* a coinbase candidate is requested for the next block, which somebody else then mines ...
+CandidateAct ==
+  /\ Height(st) < MaxH
+  /\ ~\E k \in DOMAIN st.w["w1"].outs : st.w["w1"].outs[k].cb /\ st.w["w1"].outs[k].st = "Unconfirmed"
+  /\ LET r == BuildCoinbase(st, "w1", [fees |-> 0, h |-> Height(st) + 1, key |-> ""]) IN
+     Upd(LastOf(r.steps), hv, net, [ev |-> "build_coinbase", w |-> "w1", key |-> "", h |-> Height(st) + 1, fees |-> 0])
+\* ... and the next block is ours after all, with the coinbase re-requested under the candidate's key
+MineReuseAct ==
+  /\ Height(st) < MaxH
+  /\ \E k \in DOMAIN st.w["w1"].outs :
+        /\ st.w["w1"].outs[k].cb /\ st.w["w1"].outs[k].st = "Unconfirmed" /\ st.w["w1"].outs[k].h <= Height(st)
+        /\ HeightOfOut(st, OID(st, "w1", k)) = 0      \* a candidate that never made it into a block
+        /\ LET txs == PickValid(st, st.pool, {}) IN
+           Upd(MineToKey(st, "w1", txs, k), hv, net, [ev |-> "mine", to |-> "w1", txs |-> txs, key |-> k])
 TickAct ==   \* an empty block, only while something can change by it (a pending TTL)
   /\ Height(st) < MaxH
   /\ \E m \in net : m.ttl # 0 /\ m.ttl + 1 > Height(st)
@@ -336,6 +355,13 @@ ForeignFinalizeExpired(sl) ==
          s2 == LastOr(r.steps, st) IN
      Upd(s2, HvAfterFinalize(st, s2, hv, "w1", sl, FALSE), AdvMark,
          [ev |-> "finalize", w |-> "w1", sl |-> sl, stage |-> "S1", rep |-> 0, foreign |-> TRUE, tamper |-> "bogus_expired"])
+\* a receive request that cannot be served (kernel features of a coinbase), naming a destination
+\* account: refused - and a refusal leaves the wallet, the account it acts on included, as it was
+ForeignReceiveBad(sl, dest) ==
+  /\ \E m \in net : m.sl = sl /\ m.stage = "S1"
+  /\ AdvCount < MaxAdv
+  /\ (dest = "" \/ dest \in DOMAIN st.w["w1"].labels)
+  /\ Upd(BumpChild(st, "w1"), hv, AdvMark, [ev |-> "receive", w |-> "w1", sl |-> sl, dest |-> dest, tamper |-> "feat1", mok |-> FALSE])
 \* a coinbase request naming the key of an existing record
 ForeignCoinbaseKey(k) ==
   /\ k \in DOMAIN st.w["w1"].outs
@@ -359,7 +385,7 @@ Next ==
                                         \/ (UseTtl /\ ProcessInvoiceAct(sl, 1))
                                         \/ \E m \in net : FinalizeInvoiceAct(sl, m)
   \/ MineAct("") \/ TickAct
-  \/ UseMineTo /\ MineAct("w1")
+  \/ UseMineTo /\ (MineAct("w1") \/ CandidateAct \/ MineReuseAct)
   \/ \E w \in DOMAIN st.w : RefreshAct(w)
   \/ MaxFork > 0 /\ \E d \in 1..MaxFork : \E keep \in SUBSET Mined(st) : ForkAct(d, keep)
   \/ UseScan /\ ((~UseSelf /\ RestoreAct) \/ \E w \in DOMAIN st.w : \E del \in BOOLEAN : ScanAct(w, del))
@@ -369,6 +395,7 @@ Next ==
   \/ UseCancelBySlate /\ \E w \in WS, sl \in Slates : CancelAct(w, -1, sl)
   \/ UseAdv /\ \E sl \in Slates : ForeignFinalizeBogus(sl) \/ ForeignReceiveOwn(sl) \/ ForeignFinalizeExpired(sl)
   \/ UseAdv /\ \E k \in DOMAIN st.w["w1"].outs : ForeignCoinbaseKey(k)
+  \/ UseAdv /\ \E sl \in Slates, dest \in {"", "acct1"} : ForeignReceiveBad(sl, dest)
 
 Spec == Init /\ [][Next]_vars
 
